@@ -99,6 +99,10 @@ def evaluate(v, out, baseline):
                 ok = False
                 msgs.append("%s: analysis error: %s" % (pid, res["err"][:300]))
             elif not any(k.startswith(rule) for k in new):
+                if any(k.startswith(rule) for k in baseline.get(pid, ())):
+                    # the tree under test already violates this very rule: the variant cannot add anything
+                    msgs.append("%s: rule %s already failing on the tree under test" % (pid, rule))
+                    continue
                 ok = False
                 msgs.append("%s: MISSED (wanted rule %s*, new findings: %s)" % (pid, rule, new[:3]))
             else:
